@@ -420,6 +420,8 @@ class Union():
 
         if group.attrs['unit']:
             bound.cube = UnitCube.read(group['cube'], rng=bound.rng)
+        else:
+            bound.cube = None
 
         if group.attrs['bound_class'] == 'Ellipsoid':
             bound_class = Ellipsoid
